@@ -6,6 +6,7 @@ import (
 	"errors"
 	"fmt"
 	"io"
+	"time"
 )
 
 // C09 — Close, Abort or transport failure at any moment unblocks callers, leaks nothing.
@@ -91,8 +92,18 @@ func vh_C09_L1_read_loop_exit() {
 func vh_C09_L1_inbound_abort() {
 	a, conn, streams := vTeardownPreState()
 	abort := &chunkAbort{errorCauses: []errorCause{&errorCauseUserInitiatedAbort{upperLayerAbortReason: nondetBytes(2)}}}
-	raw, err := (&packet{verificationTag: a.myVerificationTag, sourcePort: 5000, destinationPort: 5000, chunks: []chunk{abort}}).marshal(true)
+	// with zero checksums negotiated the peer sends its ABORT, like every other packet, with a
+	// zero checksum field: it must close this side all the same
+	zero := vPick(2) == 1
+	a.recvZeroChecksum = zero
+	raw, err := (&packet{verificationTag: a.myVerificationTag, sourcePort: 5000, destinationPort: 5000, chunks: []chunk{abort}}).marshal(!zero)
 	vassert(err == nil, "abort packet marshals")
+	// a stream whose read deadline has already expired still learns the teardown error
+	if len(streams) > 0 && vPick(2) == 1 {
+		streams[0].lock.Lock()
+		streams[0].readErr = ErrReadDeadlineExceeded
+		streams[0].lock.Unlock()
+	}
 	conn.inbound = [][]byte{raw}
 	conn.failReads = true
 	a.readLoop()
@@ -219,3 +230,49 @@ func vh_C09_L7_every_blocked_reader_is_woken() {
 // C09.L8: a read deadline that passes after the teardown does not hide the teardown error
 // from readers (same obligation as C18.L4).
 func vh_C09_L8_deadline_does_not_replace_teardown_error() { vh_C18_L4_read_deadline() }
+
+// vTeardownWhileParkedCtx: a context whose Done() is consulted exactly when a blocking
+// writer is about to wait (select entry); at that moment the association is torn down
+// underneath it (the interleaving "teardown lands between the writer's unlock and its
+// wait"). The channel it returns never fires: only the teardown can release the writer.
+type vTeardownWhileParkedCtx struct {
+	a    *Association
+	conn *vConn
+	kind int
+	done bool
+}
+
+func (c *vTeardownWhileParkedCtx) Deadline() (time.Time, bool) { return time.Time{}, false }
+func (c *vTeardownWhileParkedCtx) Err() error                  { return nil }
+func (c *vTeardownWhileParkedCtx) Value(any) any               { return nil }
+func (c *vTeardownWhileParkedCtx) Done() <-chan struct{} {
+	if !c.done {
+		c.done = true
+		c.conn.failReads = true
+		if c.kind == 1 {
+			_ = c.a.close()
+		}
+		c.a.readLoop() // transport failure (or Close): the read loop ends and releases everybody
+	}
+	return nil
+}
+
+// C09.L9: a blocking writer that is just about to wait when the association is torn down
+// (transport failure or Close) is released with an error: the wake-up is not lost.
+func vh_C09_L9_writer_about_to_wait_is_released_by_teardown() {
+	a, conn := vNewAssocOpts(vAssocOpts{blockWrite: true})
+	s, err := a.OpenStream(1, PayloadTypeWebRTCBinary)
+	vassert(err == nil, "open stream")
+	_, werr := s.WriteSCTP(nondetBytes(2), PayloadTypeWebRTCBinary)
+	vassert(werr == nil && a.writePending, "first write accepted, the gate is closed")
+	pend := a.pendingQueue.size()
+	chunks, _ := s.packetize(nondetBytes(3), PayloadTypeWebRTCBinary)
+	ctx := &vTeardownWhileParkedCtx{a: a, conn: conn, kind: vPick(2)}
+	vMustNotBlock("a blocking write that was about to wait when the association was torn down returns")
+	serr := a.sendPayloadData(ctx, chunks)
+	vMayBlock()
+	vassert(ctx.done, "the teardown happened while the writer was at the gate")
+	vassert(serr != nil, "the write is rejected")
+	vassert(a.pendingQueue.size() <= pend, "and queues nothing")
+	vcover("end")
+}
